@@ -331,3 +331,119 @@ Proof. unfold p_run. apply p_run_ops_ok. unfold queue_ok. cbn. constructor. Qed.
 Corollary buffered_run_respects_tolerances c cap0 script input ops : calm script ->
   Forall (rout_ok c) (run_reader c cap0 script input ops).
 Proof. intros Hc. rewrite buffered_refines_pure by exact Hc. apply run_respects_tolerances. Qed.
+
+(* ------------------------------------------------------------------ C03: items mirror the bytes at their offsets *)
+(* the documented decoding of a payload for a declared type *)
+Definition decodes (ty : option dtype) (payload : list N) (v : value) : Prop :=
+  match ty, v with
+  | Some DUInt, VU n => arr_to_u64 payload = Ok n
+  | Some DSInt, VI z => arr_to_i64 payload = Ok z
+  | Some DFloat, VF b => arr_to_f64 payload = Ok b
+  | Some DUtf8, VS bs => bs = payload /\ utf8_valid payload = true
+  | Some DBinary, VB bs => bs = payload
+  | None, VRaw bs => bs = payload
+  | _, _ => False
+  end.
+
+Lemma pconsume_bytes st k : k <= blen st ->
+  b_bytes st = fst (splitN k (b_bytes st)) ++ b_bytes (pconsume st k) /\ N.of_nat (length (fst (splitN k (b_bytes st)))) = k /\
+  b_off (pconsume st k) = b_off st + k.
+Proof.
+  intros Hk. unfold blen in Hk. destruct (splitN_app (b_bytes st) k Hk) as [Hab Hlen].
+  split; [symmetry; exact Hab|]. split; [exact Hlen|reflexivity].
+Qed.
+
+Lemma p_hier_step_pos c st id ty : b_bytes (fst (p_hier_step c st id ty)) = b_bytes st /\ b_off (fst (p_hier_step c st id ty)) = b_off st.
+Proof.
+  unfold p_hier_step. destruct (negb _ && _); [|split; reflexivity].
+  destruct (b_det st); [destruct (_ && _); split; reflexivity|].
+  destruct (all_ids _); [destruct (implied_stack _ _); [destruct (_ && _)|]; split; reflexivity|destruct (_ && _); split; reflexivity].
+Qed.
+
+Lemma p_tag_id_len st id idl : p_tag_id st = Ok (id, idl) -> (idl <= length (b_bytes st))%nat.
+Proof.
+  unfold p_tag_id, blen. destruct (b_bytes st) as [|b0 tl] eqn:Eb; [discriminate|].
+  destruct (b0 =? 0); [intros Hq; inversion Hq; cbn; lia|].
+  destruct (N.ltb_spec (N.of_nat (length (b0 :: tl))) (N.of_nat (vint_len b0))) as [Hs|Hl]; [discriminate|].
+  intros Hq; inversion Hq; subst. lia.
+Qed.
+
+(* a successful header: the id is the one found at the cursor, the header occupies hl bytes of the input that are present *)
+Lemma p_header_ok_facts c st st' id ty esz hl : p_header c st = (st', Ok (id, ty, esz, hl)) ->
+  b_bytes st' = b_bytes st /\ b_off st' = b_off st /\ ty = get_type (c_sp c) id /\
+  exists idl size sl, p_tag_id st = Ok (id, idl) /\ read_vint (firstn 8 (skipn idl (b_bytes st))) = Ok (Some (size, sl)) /\
+                      hl = (idl + sl)%nat /\ esz = ebml_size size sl /\ N.of_nat hl <= blen st.
+Proof.
+  rewrite p_header_unfold. destruct (p_tag_id st) as [[id0 idl]|e0|] eqn:Et; try discriminate.
+  unfold p_hdr_tail. destruct (read_vint _) as [[[size sl]|]|e1|] eqn:Ev; try discriminate.
+  destruct (is_numeric _ && _); [discriminate|]. destruct (negb (c_allow_id c) && _); [discriminate|].
+  destruct (p_hier_step_pos c st id0 (get_type (c_sp c) id0)) as [Hb Ho].
+  destruct (p_hier_step _ _ _ _) as [st1 [e1|]]; [discriminate|]. cbn [fst] in *. destruct (b_bad st1); [discriminate|].
+  destruct (_ && _); [discriminate|].
+  assert (Hlen : N.of_nat (idl + sl) <= blen st).
+  { apply read_vint_len in Ev. rewrite firstn_length, skipn_length in Ev. unfold blen.
+    pose proof (p_tag_id_len _ _ _ Et). lia. }
+  destruct (c_max c); destruct (ebml_size size sl) eqn:Ee; try destruct (_ <? _); intros H; inversion H; subst;
+    (split; [exact Hb|split; [exact Ho|split; [reflexivity|exists idl, size, sl; repeat split; try assumption; try reflexivity; congruence]]]).
+Qed.
+
+(* C03 for one tag: the item's offset is the cursor; the id at that offset is the item's id; the value is the documented
+   decoding of the payload that follows the header; and the cursor advances exactly over header (+ payload) *)
+Theorem p_read_tag_mirrors c st st' p : p_read_tag c st = (st', Ok p) ->
+  p_start p = b_off st /\
+  exists idl hl payload,
+    p_tag_id st = Ok (tag_id (p_tag p), idl) /\ (idl <= hl)%nat /\
+    b_bytes st = firstn hl (b_bytes st) ++ payload ++ b_bytes st' /\ length (firstn hl (b_bytes st)) = hl /\
+    p_data p = b_off st + N.of_nat hl /\
+    b_off st' = b_off st + N.of_nat hl + N.of_nat (length payload) /\
+    match p_tag p with
+    | TStart id => get_type (c_sp c) id = Some DMaster /\ payload = []
+    | TElem id v => get_type (c_sp c) id <> Some DMaster /\ decodes (get_type (c_sp c) id) payload v /\ p_size p = SKnown (N.of_nat (length payload))
+    | _ => False
+    end.
+Proof.
+  rewrite p_read_tag_unfold. destruct (p_header c st) as [st1 [[[[id ty] esz] hl]|e0|]] eqn:Eh; try discriminate.
+  destruct (p_header_ok_facts _ _ _ _ _ _ _ Eh) as [Hb [Ho [Hty [idl [size [sl [Et [Ev [Hhl [Hesz Hlen]]]]]]]]]].
+  unfold p_tag_tail.
+  assert (Hlen1 : N.of_nat hl <= blen st1) by (unfold blen in *; rewrite Hb; exact Hlen).
+  destruct (pconsume_bytes st1 (N.of_nat hl) Hlen1) as [Hsplit [Hfl Hoff]].
+  set (stc := pconsume st1 (N.of_nat hl)) in *.
+  assert (Hhead : fst (splitN (N.of_nat hl) (b_bytes st1)) = firstn hl (b_bytes st)).
+  { rewrite <- Hb. rewrite Hsplit at 2. rewrite firstn_app. replace (hl - length (fst (splitN (N.of_nat hl) (b_bytes st1))))%nat with O by lia.
+    cbn. rewrite app_nil_r. rewrite firstn_all2 by lia. reflexivity. }
+  assert (Hfn : length (firstn hl (b_bytes st)) = hl) by (rewrite <- Hhead; lia).
+  assert (Master : forall t, t = TStart id -> get_type (c_sp c) id = Some DMaster ->
+            (stc, @Ok rerr ptag {| p_tag := t; p_size := esz; p_start := b_off st; p_data := b_off stc |}) = (st', Ok p) ->
+            p_start p = b_off st /\ exists idl hl payload, p_tag_id st = Ok (tag_id (p_tag p), idl) /\ (idl <= hl)%nat /\
+              b_bytes st = firstn hl (b_bytes st) ++ payload ++ b_bytes st' /\ length (firstn hl (b_bytes st)) = hl /\
+              p_data p = b_off st + N.of_nat hl /\ b_off st' = b_off st + N.of_nat hl + N.of_nat (length payload) /\
+              match p_tag p with TStart id => get_type (c_sp c) id = Some DMaster /\ payload = []
+              | TElem id v => get_type (c_sp c) id <> Some DMaster /\ decodes (get_type (c_sp c) id) payload v /\ p_size p = SKnown (N.of_nat (length payload))
+              | _ => False end).
+  { intros t -> Hm H. inversion H; subst st' p. cbn [p_start p_tag p_data tag_id]. split; [reflexivity|].
+    exists idl, hl, []. split; [exact Et|]. split; [lia|]. split; [cbn [app]; rewrite <- Hhead, <- Hb; exact Hsplit|].
+    split; [exact Hfn|]. split; [congruence|]. split; [cbn [length]; rewrite Hoff, Ho; lia|]. split; [exact Hm|reflexivity]. }
+  destruct ty as [[]|] eqn:Ety; try (apply Master; [reflexivity|congruence]).
+  all: destruct esz as [n|] eqn:Ees; [|discriminate].
+  all: destruct (N.ltb_spec (blen stc) n) as [|Hge]; [discriminate|].
+  all: destruct (pconsume_bytes stc n Hge) as [Hsplit2 [Hfl2 Hoff2]].
+  all: set (raw := fst (splitN n (b_bytes stc))) in *.
+  all: assert (Fin : forall v, decodes (get_type (c_sp c) id) raw v ->
+            (pconsume stc n, @Ok rerr ptag {| p_tag := TElem id v; p_size := SKnown n; p_start := b_off st; p_data := b_off stc |}) = (st', Ok p) ->
+            p_start p = b_off st /\ exists idl hl payload, p_tag_id st = Ok (tag_id (p_tag p), idl) /\ (idl <= hl)%nat /\
+              b_bytes st = firstn hl (b_bytes st) ++ payload ++ b_bytes st' /\ length (firstn hl (b_bytes st)) = hl /\
+              p_data p = b_off st + N.of_nat hl /\ b_off st' = b_off st + N.of_nat hl + N.of_nat (length payload) /\
+              match p_tag p with TStart id => get_type (c_sp c) id = Some DMaster /\ payload = []
+              | TElem id v => get_type (c_sp c) id <> Some DMaster /\ decodes (get_type (c_sp c) id) payload v /\ p_size p = SKnown (N.of_nat (length payload))
+              | _ => False end)
+    by (intros v Hdec H; inversion H; subst st' p; cbn [p_start p_tag p_data p_size tag_id]; split; [reflexivity|];
+        exists idl, hl, raw; split; [exact Et|]; split; [lia|];
+        split; [rewrite <- Hhead, <- Hb, <- Hsplit2; exact Hsplit|]; split; [exact Hfn|]; split; [congruence|];
+        split; [rewrite Hoff2, Hoff, Ho; lia|]; split; [rewrite <- Hty; discriminate|]; split; [exact Hdec|rewrite Hfl2; reflexivity]).
+  - destruct (arr_to_u64 raw) eqn:Ea; try discriminate. apply Fin. rewrite <- Hty. exact Ea.
+  - destruct (arr_to_i64 raw) eqn:Ea; try discriminate. apply Fin. rewrite <- Hty. exact Ea.
+  - destruct (utf8_valid raw) eqn:Ea; try discriminate. apply Fin. rewrite <- Hty. split; [reflexivity|exact Ea].
+  - apply Fin. rewrite <- Hty. reflexivity.
+  - destruct (arr_to_f64 raw) eqn:Ea; try discriminate. apply Fin. rewrite <- Hty. exact Ea.
+  - apply Fin. rewrite <- Hty. reflexivity.
+Qed.
